@@ -38,17 +38,21 @@ RULE = {
         "outside) == advertised. Then, on the same manager, one generated battery reports all four bounds scaled by "
         "0.5 / 2 / 0 in a message stamped 1 ms older than, equal to or 1 ms newer than its siblings' latest message, delivered "
         "after a request has been served on the siblings' data; advertised bounds are recomputed from the latest received "
-        "data and the whole probe round is repeated. Non-trivial = >=2 groups with different exclusion bounds or a shared inverter/battery; "
+        "data and the whole probe round is repeated. Finally the status tracker declares a generated subset of the batteries "
+        "not working (their data stay complete), advertised bounds are computed for the working set and the probe round is "
+        "repeated with requests that still name every battery. Non-trivial = >=2 groups with different exclusion bounds or a shared inverter/battery; "
         "distinct by SHA-1 of the canonical JSON case."
     )
 }
 ASSUMPTIONS = [
-    "complete data: every battery and inverter reports all four bounds; all batteries working",
+    "complete data: every battery and inverter reports all four bounds; the working set is what the (stubbed) status "
+    "tracker says: all batteries in phases 1-2, a generated subset in phase 3",
     "bounds on an integer/half grid so that summation order cannot create 1-ulp differences",
     "a probe exactly on an advertised exclusion bound is not required to be accepted (SystemBounds.__contains__ excludes it)",
 ]
 MIN_LABELS = {"C17": {"shared": 0.3, "multi_group_diff_excl": 0.2, "probe_on_incl_bound": 0.5, "data_update_phase": 0.5,
-                      "update_with_older_timestamp_than_sibling": 0.1}}
+                      "update_with_older_timestamp_than_sibling": 0.1, "status_phase_some_not_working": 0.5,
+                      "battery_set_partially_working": 0.1}}
 
 
 def strategy(tier: str, pid: str = "C17") -> st.SearchStrategy[Any]:
@@ -62,6 +66,9 @@ def strategy(tier: str, pid: str = "C17") -> st.SearchStrategy[Any]:
             "factor": st.sampled_from([0.5, 2.0, 0.0]),
             "ts_offset_ms": st.sampled_from([-1, -1, 0, 1]),
         }),
+        # third phase: the status tracker declares a generated subset of the batteries not working (data stay
+        # complete); advertised bounds are computed for the working set, the request still names all batteries
+        "down": st.lists(st.booleans(), min_size=12, max_size=12),
     })
 
 
@@ -99,47 +106,71 @@ def run_case(case: Any, pid: str) -> Verdict:
             await probe_round(mw, case, "initial data")
             if v.violations:
                 return
-            # second phase: updated bounds for one battery, older / equal / newer timestamp
-            upd = case.get("update")
-            if not upd:
+            case_now = await update_phase(mw)
+            if v.violations:
                 return
-            gi = upd["group"] % len(groups)
-            bi = upd["bat"] % len(groups[gi]["bats"])
-            new_groups = [dict(g, bats=[dict(b) for b in g["bats"]], invs=[dict(i) for i in g["invs"]]) for g in groups]
-            for key in ("iu", "il", "eu", "el"):
-                new_groups[gi]["bats"][bi][key] = new_groups[gi]["bats"][bi][key] * upd["factor"] + 0.0
-            gb = batsys.group_bounds(new_groups[gi])
-            if gb["min_power_up"] > gb["incl_up"] or gb["min_power_lo"] > gb["incl_lo"]:
-                v.labels.add("update_skipped_inconsistent")
-                return
-            cid = mw.ids[gi][0][bi]
-            await asyncio.sleep(1.0)   # the battery's own messages stay in time order
-            # everything else reports again first and a request is served on that data; only then does the
-            # changed battery's message arrive, stamped older / equal / newer than its siblings' latest
-            t_feed = world.now()
-            stamp = t_feed + timedelta(milliseconds=upd["ts_offset_ms"])
-            for g, (bids, iids) in zip(groups, mw.ids):
-                for other, b in zip(bids, g["bats"]):
-                    if other != cid:
-                        await mw.api.send(other, batsys.make_battery(other, b, t_feed))
-                for other, i in zip(iids, g["invs"]):
-                    await mw.api.send(other, batsys.make_inverter(other, i, t_feed))
-            await world.settle(2)
-            await mw.request(1.0, adjust_power=True)
-            await mw.api.send(cid, batsys.make_battery(cid, new_groups[gi]["bats"][bi], stamp))
-            await world.settle(2)
-            v.labels.add("data_update_phase")
-            if upd["ts_offset_ms"] <= 0 and len(groups[gi]["bats"]) >= 2:
-                v.labels.add("update_with_older_timestamp_than_sibling")
-            await probe_round(mw, dict(case, groups=new_groups), f"after battery {cid} reported bounds scaled by {upd['factor']}")
+            await status_phase(mw, case_now)
 
-    async def probe_round(mw: Any, case_now: dict[str, Any], phase: str) -> None:
+    async def update_phase(mw: Any) -> dict[str, Any]:
+        """Second phase: updated bounds for one battery, older / equal / newer timestamp.  Returns the data now in force."""
+        upd = case.get("update")
+        if not upd:
+            return case
+        gi = upd["group"] % len(groups)
+        bi = upd["bat"] % len(groups[gi]["bats"])
+        new_groups = [dict(g, bats=[dict(b) for b in g["bats"]], invs=[dict(i) for i in g["invs"]]) for g in groups]
+        for key in ("iu", "il", "eu", "el"):
+            new_groups[gi]["bats"][bi][key] = new_groups[gi]["bats"][bi][key] * upd["factor"] + 0.0
+        gb = batsys.group_bounds(new_groups[gi])
+        if gb["min_power_up"] > gb["incl_up"] or gb["min_power_lo"] > gb["incl_lo"]:
+            v.labels.add("update_skipped_inconsistent")
+            return case
+        cid = mw.ids[gi][0][bi]
+        await asyncio.sleep(1.0)   # the battery's own messages stay in time order
+        # everything else reports again first and a request is served on that data; only then does the
+        # changed battery's message arrive, stamped older / equal / newer than its siblings' latest
+        t_feed = world.now()
+        stamp = t_feed + timedelta(milliseconds=upd["ts_offset_ms"])
+        for g, (bids, iids) in zip(groups, mw.ids):
+            for other, b in zip(bids, g["bats"]):
+                if other != cid:
+                    await mw.api.send(other, batsys.make_battery(other, b, t_feed))
+            for other, i in zip(iids, g["invs"]):
+                await mw.api.send(other, batsys.make_inverter(other, i, t_feed))
+        await world.settle(2)
+        await mw.request(1.0, adjust_power=True)
+        await mw.api.send(cid, batsys.make_battery(cid, new_groups[gi]["bats"][bi], stamp))
+        await world.settle(2)
+        v.labels.add("data_update_phase")
+        if upd["ts_offset_ms"] <= 0 and len(groups[gi]["bats"]) >= 2:
+            v.labels.add("update_with_older_timestamp_than_sibling")
+        case_now = dict(case, groups=new_groups)
+        await probe_round(mw, case_now, f"after battery {cid} reported bounds scaled by {upd['factor']}")
+        return case_now
+
+    async def status_phase(mw: Any, case_now: dict[str, Any]) -> None:
+        """Third phase: some batteries are declared not working by the status tracker; their data stay complete."""
+        all_bats = [b for bids, _ in mw.ids for b in bids]
+        down = {b for k, b in enumerate(all_bats) if case.get("down", [False])[k % len(case.get("down", [False]))]}
+        if not down or len(down) == len(all_bats):
+            return
+        tracker = mw.manager._component_pool_status_tracker  # pylint: disable=protected-access
+        tracker.not_working = set(down)
+        v.labels.add("status_phase_some_not_working")
+        if any(0 < len(set(bids) & down) < len(bids) for bids, _ in mw.ids):
+            v.labels.add("battery_set_partially_working")
+        await probe_round(mw, case_now, f"with batteries {sorted(down)} declared not working", set(all_bats) - down)
+
+    async def probe_round(mw: Any, case_now: dict[str, Any], phase: str, working: set[int] | None = None) -> None:
         groups_now = case_now["groups"]
-        gbs_now = [batsys.group_bounds(g) for g in groups_now]
+        data, bats = _metrics(case_now)
+        working = set(bats) if working is None else working
+        # a battery set counts as a whole as soon as one of its batteries works (calculator and manager agree on that)
+        live = [g for g, (bids, _) in zip(groups_now, mw.ids) if set(bids) & working]
+        gbs_now = [batsys.group_bounds(g) for g in live]
         min_up = sum(gb["min_power_up"] for gb in gbs_now)
         min_lo = sum(gb["min_power_lo"] for gb in gbs_now)
-        data, bats = _metrics(case_now)
-        sb = PowerBoundsCalculator(bats).calculate(data, set(bats))
+        sb = PowerBoundsCalculator(bats).calculate(data, set(working))
         if sb.inclusion_bounds is None or sb.exclusion_bounds is None:
             v.fail("complete data but the calculator advertises no bounds")
             return
